@@ -474,14 +474,17 @@ fn main() {
     // regular grid of 12 cells per draw (the short words above cover every position)
     {
         let lens = tu_verif::enumerate::threshold_lengths(run.pick(6, 8));
-        run.bounds.insert("long_phase".into(), json!(format!("character counts {lens:?} x 2 repeated patterns x use_graphemes x kinds {{each alone, all}} x providers {{context-full, mock-always}} x exclusions {{none, start+middle+end}} x random streams on a 12-cell grid per draw")));
+        run.bounds.insert("long_phase".into(), json!(format!("character counts {lens:?} x (2 repeated patterns, one short word around a grapheme cluster of that many code points) x use_graphemes x kinds {{each alone, all}} x providers {{context-full, mock-always}} x exclusions {{none, start+middle+end}} x random streams on a 12-cell grid per draw")));
         for (k, n) in lens.iter().enumerate() {
             if !run.unit((all.len() + k) as u64) {
                 continue;
             }
             GRID_CAP.store(12, std::sync::atomic::Ordering::Relaxed);
-            for pat in [&["a", "b"][..], &["a", "ä", "e\u{301}", "b"][..]] {
-                let word = tu_verif::enumerate::repeat_symbols(pat, *n);
+            // (and a short word around one grapheme cluster of n code points)
+            let w = format!("a{}", "\u{301}".repeat(*n - 1));
+            let mut words: Vec<String> = [&["a", "b"][..], &["a", "ä", "e\u{301}", "b"][..]].iter().map(|pat| tu_verif::enumerate::repeat_symbols(pat, *n)).collect();
+            words.push(format!("b{w}ab"));
+            for word in words {
                 for g in [false, true] {
                     let nch = refs::chars(&word, g).len();
                     for kinds in [1u32, 2, 4, 8, 15] {
